@@ -1,0 +1,38 @@
+//go:build !verif
+
+// Package simhook holds the seams used by the deterministic-simulation checks kept
+// outside this repository. Without the build tag `verif` every function here is an
+// empty, inlinable no-op, so the shipped behaviour is unchanged.
+package simhook
+
+import "github.com/sirupsen/logrus"
+
+// Enabled reports whether the simulation hooks are compiled in.
+const Enabled = false
+
+// UID lets a simulator supply client and datatype ids.
+func UID() (string, bool) { return "", false }
+
+// Logger lets a simulator reconfigure every logger that is created.
+func Logger(*logrus.Logger) {}
+
+// ServiceClient lets a simulator supply the model.OrdaServiceClient used for addr.
+func ServiceClient(string) interface{} { return nil }
+
+// MQTT lets a simulator supply the mqtt.Client built from the given *mqtt.ClientOptions.
+func MQTT(interface{}) interface{} { return nil }
+
+// Yield marks a scheduling point of the client library.
+func Yield(string) {}
+
+// BeforeLock is called right before a blocking lock acquisition.
+func BeforeLock(interface{}, bool) {}
+
+// WillSpawn is called by the parent right before a `go` statement.
+func WillSpawn() uint64 { return 0 }
+
+// GoStart is called first thing in a spawned goroutine.
+func GoStart(uint64) {}
+
+// GoEnd is called last thing in a spawned goroutine.
+func GoEnd() {}
